@@ -277,15 +277,22 @@ def weave_fn(fs: FnSpec, text: str, sig_brace: int, shim_table):
         else:
             raise WeaveError('unknown section kind ' + kind)
 
-    # shims: expression-level call-outs registered in shims.py
+    # shims: expression-level call-outs registered in shims.py.  Patterns are matched on the *masked* text
+    # (comments blanked), so a comment inside the construct does not hide it; captured groups are taken
+    # from the original text.
     for sname in fs.shims:
         sh = shim_table[sname]
-        hits = list(re.finditer(sh['pattern'], text[sig_brace:], re.S))
+        hits = list(re.finditer(sh['pattern'], m[sig_brace:], re.S))
         if not hits:
             raise WeaveError('lost anchor: shim %s does not match anything in %s' % (sname, name))
         for h in hits:
             a, b = sig_brace + h.start(), sig_brace + h.end()
-            repl.append((a, b, shim_wrap(sname, text[a:b], h.expand(sh['replace']))))
+
+            def grp(mm, h=h):
+                k = int(mm.group(1))
+                return text[sig_brace + h.start(k):sig_brace + h.end(k)]
+            replacement = re.sub(r'\\(\d)', grp, sh['replace'])
+            repl.append((a, b, shim_wrap(sname, text[a:b], replacement)))
 
     # apply: replacements and insertions must not overlap
     pieces = []
@@ -322,7 +329,7 @@ def strip_woven(w: str) -> str:
 # whole unit
 
 
-def build_unit(spec_path, repo, contracts_dir, shim_table):
+def build_unit(spec_path, repo, contracts_dir, shim_table, force_extern=None):
     u = parse_spec(spec_path)
     srcs = {}
 
@@ -347,6 +354,7 @@ def build_unit(spec_path, repo, contracts_dir, shim_table):
 
     fn_texts = []
     fn_info = {}
+    force_extern = dict(force_extern or {})
     for fs in u.fns:
         rel = fs.opts.get('src', 'src/screen.rs')
         s = src(rel)
@@ -356,22 +364,34 @@ def build_unit(spec_path, repo, contracts_dir, shim_table):
             impl_re = fs.opts.get('implre', r'^impl (ParserListener for )?%s\b' % fs.impl)
         hdr, a, brace, b = s.fn_in_impl(impl_re, fs.name)
         text = s.text[a:b]
-        if fs.extern:
+        degraded = None
+        woven = None
+        if not fs.extern and fs.name not in force_extern:
+            try:
+                woven = weave_fn(fs, text, brace - a, shim_table)
+            except WeaveError as e:
+                # this function cannot be woven (lost anchor / shim no longer matches): keep the unit alive by
+                # assuming its contract; every obligation of the function is then reported as UNDECIDED
+                force_extern[fs.name] = 'weave: %s' % e
+        if fs.name in force_extern:
+            degraded = force_extern[fs.name]
+        if fs.extern or degraded:
             sig = text[:brace - a]
             secs = [t for (k, _, _, t) in fs.sections if k == 'sig']
+            if 'ret' in fs.opts:
+                arrow = sig.rfind('->')
+                sig = sig[:arrow + 2] + shim_wrap('name-return', sig[arrow + 2:], ' (%s: %s) ' % (fs.opts['ret'], sig[arrow + 2:].strip()))
             woven = '#[verifier::external_body]\n' + sig + block(fs.name, 'sig', secs[0] if secs else '') + \
                 shim_wrap('extern-body', text[brace - a:], '{ unimplemented!() }')
-        else:
-            woven = weave_fn(fs, text, brace - a, shim_table)
         if strip_woven(woven).replace('#[verifier::external_body]\n', '') != text:
             open('/tmp/weave_roundtrip_a.txt', 'w').write(strip_woven(woven))
             open('/tmp/weave_roundtrip_b.txt', 'w').write(text)
             raise WeaveError('round-trip mismatch in %s' % fs.name)
         roundtrip.append((rel, text))
-        spin = '' if fs.extern else '/*@w<*/#[verifier::spinoff_prover]/*@w>*/\n'
+        spin = '' if (fs.extern or degraded) else '/*@w<*/#[verifier::spinoff_prover]/*@w>*/\n'
         fn_texts.append((fs, '//@FN< %s\n%s%s\n//@FN> %s\n' % (fs.name, spin, woven, fs.name)))
         fn_info[fs.name] = dict(src=rel, line=s.lineno(a), impl=hdr, text=text, props=fs.props, extern=fs.extern,
-                                shims=fs.shims)
+                                shims=fs.shims, degraded=degraded)
 
     # the round-trip check against the files themselves
     for rel, t in roundtrip:
